@@ -1,5 +1,6 @@
 """C06 — approved invoices are never overpaid in flight; unbacked payments are refused."""
 import lib
+import gen_rustfn
 
 IMPORTS = ["Model.PaymentsCheck"]
 
@@ -11,22 +12,39 @@ MANIFEST = dict(
          "an unapproved, never seen hash is covered by incoming value in the same update).  Invariant by induction over the "
          "history; the validate-then-apply pairing of each request is modelled in code order.  The model is run against a real "
          "Node with 2-3 real channels (real signatures, HTLCs, keysend approvals, restarts from the store) on every run and a "
-         "monitor recomputes the in-flight values from the accepted commitment contents.  Props/Joint.v restates C06 (and "
+         "monitor recomputes the in-flight values from the accepted commitment contents.  C06_balance_rule_is_source: the "
+         "model's balance rule IS the source's - Gen/PaymentsGen.v is regenerated on every run from "
+         "SimpleValidator::validate_payment_balance by tools/gen_rustfn.py and proved equal to balance_ok (default filter, "
+         "both build profiles, amounts that fit u64).  Props/Joint.v restates C06 (and "
          "C01-C03) over joint histories of Model/Joint.v, where the enforcement state machines of all channels and the "
          "ledger run together and the payment verdict of every update is computed instead of supplied; the same histories are "
          "compared with that model too (reply, ledger, and every channel's enforcement state in memory and in the store).",
     design="§4 C06",
-    note=lib.TB + "Assumes approvals arrive before the payment is attempted (fresh_history) — the tolerance for uninvoiced hashes "
+    note=lib.TB + "Additionally trusted: tools/gen_rustfn.py and the meaning Base/Rust.v gives to the Rust constructs it reads.  Assumes approvals arrive before the payment is attempted (fresh_history) — the tolerance for uninvoiced hashes "
          "with an existing payment record (issue 331) is modelled and lies outside the property.  Amounts stay far below 2^64/1000 "
          "(enforced by the commitment policy, C05); CLTV rules, issued invoices and the optional balance enforcement are not modelled.",
-    technique="Coq proof (ledger invariant by induction over multi-channel histories) + vm_compute correspondence with the Rust implementation",
+    technique="Coq proof (ledger invariant by induction over multi-channel histories; the balance rule translated from the Rust source on every run and proved equal to the model) + vm_compute correspondence with the Rust implementation",
 )
 
 
 def run(res):
     quick = res.tier == "quick"
-    lib.proof_stage(res, "C06.v", "Props.C06",
-                    ["C06_no_overpay", "C06_ledger_is_in_flight_value", "C06_unbacked_refused", "C06_nonvacuous"])
+    # the translator regenerates Gen/PaymentsGen.v from /repo's simple_validator.rs under the build lock, right
+    # before the theorem that relates it to the model's balance rule is re-checked
+    report = {}
+
+    def regen():
+        report.update(gen_rustfn.generate_payments(lib.REPO))
+    try:
+        lib.proof_stage(res, "C06.v", "Props.C06",
+                        ["C06_no_overpay", "C06_ledger_is_in_flight_value", "C06_unbacked_refused",
+                         "C06_balance_rule_is_source", "C06_nonvacuous"], pre=regen)
+    except gen_rustfn.GenError as e:
+        res.violation("the translator cannot read SimpleValidator::validate_payment_balance (a construct outside its "
+                      "fragment): %s" % e,
+                      {"translator": "tools/gen_rustfn.py", "source": "vls-core/src/policy/simple_validator.rs",
+                       "error": str(e), "theorem": "C06_balance_rule_is_source"}, has_input=False)
+    res.coverage["translated_from_source"] = report
     # the same theorems (and C01-C03) over joint histories of the whole node, where the payment verdict of a
     # commitment update is computed from the ledger and the enforcement verdict from the counters
     lib.extra_props_stage(res, "Joint.v", ["J_C01_secret_needs_successor", "J_C02_signed_and_revoked_disjoint",
